@@ -465,4 +465,48 @@ theorem C09_sim_equals_theta1 (M : Static) (F : ResFn) (hE : M.L.nE = 0)
     · exact hrow v hv
     · rw [hd k hk]; ring
 
+/-- **Every solution of the θ = 1 rows is a simulation root (for every non-zero nominal).**
+    Together with `C09_sim_equals_theta1`: projecting a root of the step residual to its
+    states/algebraics is a bijection onto the solutions of the θ = 1 collocation rows — the
+    nominals only change the stored numbers, not the physical solution set. -/
+theorem C09_theta1_solution_lifts (M : Static) (F : ResFn) (hE : M.L.nE = 0)
+    (hF : ∀ e e' : Env, (F e).length = (F e').length)
+    (hν : ∀ i, i < M.L.nX → nomAt M.nom i ≠ 0)
+    (Xprev : Vec) (hXp : Xprev.length = M.L.nX) (t dt : Rat) (u c0 : Vec) (t0' : Rat)
+    (hdt : t - t0' = dt) (x1 a1 : Vec) (hx1 : x1.length = M.L.nS) (ha1 : a1.length = M.L.nA)
+    (hrow : ∀ v ∈ thetaRow F 1 (mkEnv M.L (scaleSubst M.L M.nom Xprev) t u M.p).x
+        (mkEnv M.L (scaleSubst M.L M.nom Xprev) t u M.p).a x1 a1 [] c0 u M.p t0' t, v = 0) :
+    ∃ X : Vec, X.length = M.L.nX
+      ∧ (mkEnv M.L (scaleSubst M.L M.nom X) t u M.p).x = x1
+      ∧ (mkEnv M.L (scaleSubst M.L M.nom X) t u M.p).a = a1
+      ∧ ∀ v ∈ stepResidual M F (fun _ => []) X dt (Xprev ++ t :: u), v = 0 := by
+  let e0 := mkEnv M.L (scaleSubst M.L M.nom Xprev) t u M.p
+  let dq : Vec := (List.range M.L.nS).map fun k => (x1.getD k 0 - e0.x.getD k 0) / dt
+  let v : Vec := x1 ++ a1 ++ dq
+  have hvl : v.length = M.L.nX := by simp [v, dq, hx1, ha1, Layout.nX, hE]
+  have hsc : scaleSubst M.L M.nom (encode M.nom v) = v :=
+    scaleSubst_encode M.L M.nom v (by omega) (fun i hi => hν i (by omega))
+  have hx : (mkEnv M.L v t u M.p).x = x1 := by
+    show slice v 0 M.L.nS = x1
+    simp [slice, v, List.take_append_of_le_length, hx1, List.append_assoc]
+    rw [← hx1]; simp
+  have ha : (mkEnv M.L v t u M.p).a = a1 := by
+    show slice v M.L.nS M.L.nA = a1
+    simp only [slice, v, List.append_assoc]
+    rw [← hx1, List.drop_left, ← ha1, List.take_left]
+  have hd : (mkEnv M.L v t u M.p).d = dq := by
+    show slice v (M.L.nS + M.L.nA) M.L.nS = dq
+    simp only [slice, v]
+    have : (x1 ++ a1).length = M.L.nS + M.L.nA := by simp [hx1, ha1]
+    rw [← this, List.drop_left]
+    apply List.take_of_length_le
+    simp [dq]
+  refine ⟨encode M.nom v, by simp [encode, hvl], by rw [hsc]; exact hx, by rw [hsc]; exact ha, ?_⟩
+  have hX : (encode M.nom v).length = M.L.nX := by simp [encode, hvl]
+  rw [C09_sim_equals_theta1 M F hE hF _ Xprev hX hXp t dt u c0 t0' hdt]
+  simp only [hsc, hx, ha, hd]
+  refine ⟨?_, hrow⟩
+  intro k hk
+  simp [dq, List.getD_eq_getElem?_getD, List.getElem?_map, List.getElem?_range hk]
+
 end RtcVerif.C09
